@@ -432,6 +432,9 @@ func (E *Engine) fnWrites(fn *ssa.Function, actuals []ssa.Value, bindings []ssa.
 	if h := E.P.contracts[org]; h != nil && h.WritesNothing {
 		return
 	}
+	if E.P.pureFns[org] {
+		return
+	}
 	cw := E.writes(body, env)
 	if cw.all {
 		w.all = true
